@@ -135,6 +135,33 @@ def gen_kin_part(rng, nprng, nmax):
     return ctor, args, meta
 
 
+def gen_kin_large(rng, nprng, t):
+    """an IFU data vector of realistic size (well over a hundred bins with 15-25 km/s errors): ln det C exceeds ln(max
+    float) — the density is an ordinary number, the plain determinant is not"""
+    c = gen_case(rng, nprng, t, 3)
+    n = rng.randint(125, 170)
+    ds_dds = c["args"]["ddt"] / c["args"]["dd"] / (1 + c["ctor"]["z_lens"])
+    if not ds_dds > 0:
+        c["args"]["ddt"] = abs(c["args"]["ddt"])
+        ds_dds = abs(ds_dds)
+    sig = nprng.uniform(150, 350, n)
+    j = (sig / C_KMS) ** 2 / ds_dds * nprng.uniform(0.95, 1.05, n)
+    err = nprng.uniform(15, 25, n)
+    u = nprng.normal(0, 3.0, (n, 2))
+    cov_meas = np.diag(err ** 2) + u @ u.T
+    cov_j = np.diag((nprng.uniform(3, 8, n) / C_KMS / math.sqrt(ds_dds)) ** 2)
+    c["ctor"].update(sigma_v_measurement=sig.tolist(), j_model=j.tolist(), error_cov_measurement=cov_meas.tolist(),
+                     error_cov_j_sqrt=cov_j.tolist())
+    ks = c["args"].get("kin_scaling")
+    if ks is not None:
+        c["args"]["kin_scaling"] = nprng.uniform(0.9, 1.1, n).tolist()
+        c["meta"]["ks"] = "vector"
+    c["meta"].update(n=n, model_cov="diag")
+    c["large"] = True
+    c["stream"] = "valid"
+    return c
+
+
 def gen_case(rng, nprng, t, nmax):
     c = {"type": t, "normalized": rng.random() < 0.5, "stream": "valid"}
     if t in ("DdtGaussian", "DdtLogNorm", "DdtDdGaussian"):
@@ -1108,6 +1135,9 @@ def run(ctx, res):
                 cases.append(v)
     for _ in range(ctx.n(10, 100)):
         cases.append(make_indefinite(rng, nprng, nmax))
+    for t in ("IFUKinCov", "DdtGaussKin"):
+        for _ in range(ctx.n(1, 4)):
+            cases.append(gen_kin_large(rng, nprng, t))
 
     observations = []
     for c in cases:
@@ -1116,7 +1146,7 @@ def run(ctx, res):
         res.evaluations += 1
         res.count("type=" + c["type"])
         res.count("stream=" + c["stream"])
-        res.count("dim=%s" % ("1" if c["meta"]["n"] == 1 else "2-3" if c["meta"]["n"] <= 3 else "4-6" if c["meta"]["n"] <= 6 else "7+"))
+        res.count("dim=%s" % ("1" if c["meta"]["n"] == 1 else "2-3" if c["meta"]["n"] <= 3 else "4-6" if c["meta"]["n"] <= 6 else "7-12" if c["meta"]["n"] <= 12 else "125-170"))
         if c["type"] in FLAG_TYPES:
             res.count("normalized=%s" % c["normalized"])
         if c["type"] in KIN_TYPES:
@@ -1154,8 +1184,8 @@ def run(ctx, res):
     # ---------------- correspondence: the model's own definitions at Float vs the implementation
     reqs, index = [], []
     for i, (c, obs) in enumerate(zip(cases, observations)):
-        if "direct" not in obs:
-            continue
+        if "direct" not in obs or c.get("large"):
+            continue       # (large data vectors: oracle only; the model's exact elimination at Float runs on the small ones)
         td = obs.get("td_captured")
         if c["type"] == "DdtHistKin" and td is None:
             td = obs.get("td_standalone", float("nan"))
